@@ -42,6 +42,9 @@ type Document struct {
 	// stylesAtOpen 只在通过 Open/OpenFromMemory 得到的文档上设置：打开时样式管理器和正文样式引用的状态，
 	// 保存时据此把打开之后新增/修改的样式拼接进原有的 styles.xml（见 extendOpenedStyles）
 	stylesAtOpen *openedStyles
+	// stylesWritten 记录保存时已经拼接进原有 styles.xml 的样式（样式ID -> 写入时序列化后的形式）。
+	// 样式改回打开时的状态也是一次修改：是否需要重写要与部件中现有的定义比较，而不是只与打开时的状态比较
+	stylesWritten map[string]string
 }
 
 // Body 表示文档主体
